@@ -178,13 +178,19 @@ func TestC04(t *testing.T) {
 	runModelProperty(t, st, "C04", func(rt *rapid.T) modelCase {
 		cfg := DefaultCfg()
 		cfg.CrossSnapshot = rapid.Bool().Draw(rt, "cross")
-		fam := rapid.IntRange(0, 3).Draw(rt, "family")
+		fam := rapid.IntRange(0, 5).Draw(rt, "family")
 		var sc *Scenario
 		switch fam {
 		case 0:
 			sc = GenTimelineScenario(rt, cfg)
 		case 1:
 			sc, _ = GenIssuanceScenario(rt, st)
+		case 4:
+			// the PEG-bank eras: over-subscribed banks, refunds in the input asset, requests over ungraded heights
+			sc, _ = GenBankScenario(rt, st)
+		case 5:
+			// holder payouts over two or three snapshot heights (the largest single issuance event)
+			sc, _ = GenStakingScenario(rt, st)
 		default:
 			sc = GenModernScenario(rt, cfg)
 		}
@@ -208,6 +214,8 @@ func testC07Chain(t *testing.T, st *Stats) {
 		case 0:
 			cfg := DefaultCfg()
 			cfg.PConv, cfg.PUnderfilled, cfg.PGraded = 60, 15, 55
+			// half of them run on to the next snapshot height (often ungraded, with conversions still pending)
+			cfg.CrossSnapshot = rapid.Bool().Draw(rt, "cross")
 			sc = GenModernScenario(rt, cfg)
 		case 1:
 			cfg := DefaultCfg()
@@ -271,11 +279,19 @@ func TestC12(t *testing.T) {
 	st := NewStats("C12")
 	defer st.Flush()
 	runModelProperty(t, st, "C12", func(rt *rapid.T) modelCase {
-		fam := rapid.IntRange(0, 2).Draw(rt, "family")
+		fam := rapid.IntRange(0, 3).Draw(rt, "family")
 		if fam == 0 {
 			cfg := DefaultCfg()
 			sc := GenTimelineScenario(rt, cfg) // PEG pricing phases zero / equation / floating
 			return modelCase{sc: sc, nt: fmt.Sprint("tl", sc.Chain.Start, len(sc.Chain.Blocks), sc.Chain.Tip), labels: []string{"pricing-phases"}}
+		}
+		if fam == 3 {
+			// "a block without winners ... executes no pending conversions": 2.0.2+ chains in which half of
+			// the blocks have no winners while conversions wait, running on to a snapshot height
+			cfg := DefaultCfg()
+			cfg.PConv, cfg.PGraded, cfg.CrossSnapshot = 60, 50, true
+			sc := GenModernScenario(rt, cfg)
+			return modelCase{sc: sc, nt: fmt.Sprint("nw", sc.Chain.Start, len(sc.Chain.Blocks), sc.Chain.Tip), labels: []string{"pending-conversions-over-blocks-without-winners"}}
 		}
 		sc, info := GenBandScenario(rt, st)
 		nt := ""
